@@ -22,6 +22,6 @@ for pid in sorted(os.listdir(out)):
             shutil.copy(f, dst)
         meta = json.load(open(need[2]))
         meta['property'] = pid
-        meta['wave'] = 4
+        meta['wave'] = int(os.environ.get('WAVE', '4'))
         json.dump(meta, open(os.path.join(dst, 'meta.json'), 'w'), indent=1)
         print('imported', dst)
